@@ -132,6 +132,11 @@ theorem onPlan_delta (s : PState) (ds : List Char) (dir expl : Option (List Char
       List.countP_cons, isLateErr]
   | none =>
     obtain ⟨h1, h2, h3, h4, h5, h6, h7, _⟩ := planErrs_inert dir (natOfDigits ds)
+    cases hz : tooLong ds
+    case true =>
+      constructor <;> simp [hp, isTestEvent, numberOf, planOf, isBailEvent, isFinalErr, isPlanEvent, planSlot,
+        List.countP_cons, isLateErr, lateSlot]
+    simp only [Bool.false_eq_true, if_false]
     constructor
     · simp [h1, isTestEvent]
     · simp [h2, numberOf]
@@ -148,7 +153,7 @@ theorem onPlan_delta (s : PState) (ds : List Char) (dir expl : Option (List Char
 theorem onVersion_delta (s : PState) (ds : List Char) :
     Delta s (onVersion s ds).1 (onVersion s ds).2 := by
   unfold onVersion
-  by_cases h : s.lineno = 1 <;> by_cases hv : natOfDigits ds < 13 <;>
+  by_cases h : s.lineno = 1 <;> by_cases hv : natOfDigits ds < 13 <;> cases hz : tooLong ds <;>
     constructor <;> simp [h, hv, isTestEvent, numberOf, planOf, isBailEvent, isFinalErr, isPlanEvent, planSlot,
       List.countP_cons, isLateErr, lateSlot]
 
@@ -321,13 +326,13 @@ theorem mainLine_countTests (s : PState) (line : List Char) :
   | plan ds dir expl =>
     have := (onPlan_delta s ds dir expl).numTests
     have h2 : (onPlan s ds dir expl).1.numTests = s.numTests := by
-      unfold onPlan; cases s.plan <;> rfl
+      unfold onPlan; cases s.plan <;> cases tooLong ds <;> rfl
     simp [isTestClass]; omega
   | bailout msg => simp [isTestClass, isTestEvent]
   | version ds =>
     have := (onVersion_delta s ds).numTests
     have h2 : (onVersion s ds).1.numTests = s.numTests := by
-      unfold onVersion; split <;> rfl
+      unfold onVersion; by_cases h : s.lineno = 1 <;> cases tooLong ds <;> simp [h]
     simp [isTestClass]; omega
   | unknown => simp [isTestClass, isTestEvent]
 
@@ -400,10 +405,10 @@ theorem errors_inert (l : List Event) (h : ∀ e ∈ l, isErrorEvent e = true) :
 
 theorem onPlan_lineno (s : PState) (ds : List Char) (dir expl : Option (List Char)) :
     (onPlan s ds dir expl).1.lineno = s.lineno := by
-  unfold onPlan; cases s.plan <;> rfl
+  unfold onPlan; cases s.plan <;> cases tooLong ds <;> rfl
 
 theorem onVersion_lineno (s : PState) (ds : List Char) : (onVersion s ds).1.lineno = s.lineno := by
-  unfold onVersion; by_cases h : s.lineno = 1 <;> simp [h]
+  unfold onVersion; by_cases h : s.lineno = 1 <;> cases tooLong ds <;> simp [h]
 
 theorem mainLine_lineno (s : PState) (line : List Char) : (mainLine s line).1.lineno = s.lineno := by
   simp only [mainLine]
@@ -424,10 +429,11 @@ theorem onTest_noVersion (s : PState) (ok : Bool) (num : Option (List Char)) (na
     (dir expl : Option (List Char)) : ∀ e ∈ (onTest s ok num name dir expl).2, isVersionEvent e = false := by
   intro e he
   simp only [onTest] at he
-  rcases List.mem_append.mp he with he | he
-  · rcases List.mem_append.mp he with he | he
-    · split at he <;> simp at he; subst he; rfl
-    · split at he <;> simp at he; subst he; rfl
+  simp only [List.mem_append] at he
+  rcases he with ((he | he) | he) | he
+  · split at he <;> simp at he; subst he; rfl
+  · split at he <;> simp at he; subst he; rfl
+  · split at he <;> simp at he; subst he; rfl
   · exact (parseTest_shape ..).noVersion e he
 
 theorem mainLine_noVersion (s : PState) (line : List Char) (h : s.lineno ≠ 1) :
@@ -443,10 +449,12 @@ theorem mainLine_noVersion (s : PState) (line : List Char) (h : s.lineno ≠ 1) 
     cases hp : s.plan with
     | some p => simp [hp] at he; subst he; rfl
     | none =>
-      simp [hp] at he
-      rcases he with he | he
-      · exact (planErrs_inert dir (natOfDigits ds)).2.2.2.2.2.2.2 e he
-      · subst he; rfl
+      cases hz : tooLong ds
+      · simp [hp, hz] at he
+        rcases he with he | he
+        · exact (planErrs_inert dir (natOfDigits ds)).2.2.2.2.2.2.2 e he
+        · subst he; rfl
+      · simp [hp, hz] at he; subst he; rfl
   | bailout msg => simp [hc] at he; subst he; rfl
   | version ds => simp [hc, onVersion, h] at he; subst he; rfl
   | unknown => simp [hc] at he; subst he; rfl
